@@ -505,7 +505,7 @@ fn check_program(ctx: &Ctx, label: &str, raw: &Project, config: &serde_json::Val
     if let Err(p) = catch(|| {
         let _ = project.normalize();
     }) {
-        ctx.violation(format!("panic {}", mcx::panic_site(&p)), case(), json!({"stage": "Project::normalize", "panic": p}));
+        ctx.violation(format!("panic {}", mcx::panic_site(&p)), case(), json!({"stage": "Project::normalize", "panic": p, "label": label}));
         return;
     }
     let Some(sub) = project.program.term.subs.get(&fn_tid) else {
@@ -522,10 +522,14 @@ fn check_program(ctx: &Ctx, label: &str, raw: &Project, config: &serde_json::Val
         }
     }
     let check_vars: Vec<Variable> = check_vars.into_iter().collect();
+    if verbose && std::env::var_os("C13_NOCATCH").is_some() {
+        // debugging aid for replays: let a panic of the real code print its backtrace
+        let _ = analyse(&project, &fn_tid, &check_vars, config);
+    }
     let an = match catch(|| analyse(&project, &fn_tid, &check_vars, config)) {
         Ok(a) => a,
         Err(p) => {
-            ctx.violation(format!("panic {}", mcx::panic_site(&p)), case(), json!({"stage": "function signatures / pointer inference", "panic": p, "normalized": render(&project)}));
+            ctx.violation(format!("panic {}", mcx::panic_site(&p)), case(), json!({"stage": "function signatures / pointer inference", "panic": p, "label": label, "normalized_program": render(&project)}));
             return;
         }
     };
